@@ -145,6 +145,8 @@ structure Side where
   put : Key → Val → Bool → M Obj Unit
   del : Key → Bool → M Obj Bool
   define : Key → Desc → Bool → M Obj Bool
+  stPut : Key → Val → Bool → M St Unit
+  stDefine : Key → Desc → Bool → M St Bool
   newLen : Val → Option Nat
   freeze : Bool → M Obj Unit
   ops : Ops St
@@ -210,6 +212,7 @@ def modelMethod (ps : List (Nat × Val)) (name : String) (argTok : String) : Opt
     | "filter" => some (filter O callable)
     | "reduce" => some (reduce O callable args)
     | "reduceRight" => some (reduceRight O callable args)
+    | "toString" => some (toStringM O env args)
     | "sort" => some (sort O env true none)
     | "sortNum" => some (sort O env true (some numCmpModel))
     | "sortInf" => some (sort O env true (some infCmpSpec))        -- toIntSign(±Infinity) = ±1
@@ -240,42 +243,48 @@ def specMethod (ps : List (Nat × Val)) (name : String) (argTok : String) : Opti
     | "filter" => some (Spec.filter O callable)
     | "reduce" => some (Spec.reduce O callable args)
     | "reduceRight" => some (Spec.reduceRight O callable args)
+    | "toString" => some (Spec.toStringS O env args)
     | "sort" => some (Spec.sort O env true none)
     | "sortNum" => some (Spec.sort O env true (some numCmpSpec))
     | "sortInf" => some (Spec.sort O env true (some infCmpSpec))
     | _ => none
 
 def modelSide : Side :=
-  { put := objectPut env, del := objectDelete, define := defineOwnProperty env,
+  { put := objectPut env, del := objectDelete, define := defineOwnProperty env, stPut := stPut env, stDefine := stDefine env,
     newLen := arrayUint32 env, freeze := freeze env, ops := modelOps env, method := modelMethod }
 
 def specSide : Side :=
-  { put := Spec.put env, del := Spec.delete, define := Spec.defineOwn env,
+  { put := Spec.put env, del := Spec.delete, define := Spec.defineOwn env, stPut := Spec.stPut env, stDefine := Spec.stDefine env,
     newLen := Spec.lengthOf env, freeze := Spec.freeze env, ops := Spec.specOps env, method := specMethod }
 
 def logOut (log : List (List Val)) : String :=
   if log.isEmpty then "" else "~" ++ ";".intercalate (log.reverse.map fun a => ",".intercalate (a.map valOut))
 
 /-- run one step; returns the outcome token and the new object -/
-def step (S : Side) (o : Obj) (t : String) : Option (String × Obj) :=
-  match t.splitOn "/" with
-  | ["put", k, v] => do
-    let k ← key? k; let v ← val? v
-    match S.put k v false o with
-    | .ok _ o' => pure ("ok", o')
-    | .err e o' => pure (errOut e, o')
+def step (S : Side) (tr : Val) (o : Obj) (t : String) : Option (String × Obj) :=
+  let fields := t.splitOn "/"
+  let putStep (k v sc : String) : Option (String × Obj) := do
+    let k ← key? k; let v ← val? v; let script ← script? sc
+    match S.stPut k v false { o := o, script := script, thisRaw := tr } with
+    | .ok _ s => pure ("ok" ++ logOut s.log, s.o)
+    | .err e s => pure (errOut e ++ logOut s.log, s.o)
+  let defStep (k v w e c sc : String) : Option (String × Obj) := do
+    let k ← key? k
+    let v ← if v = "-" then some none else (val? v).map some
+    let w ← tri? w; let e ← tri? e; let c ← tri? c; let script ← script? sc
+    match S.stDefine k ⟨v, w, e, c⟩ true { o := o, script := script, thisRaw := tr } with
+    | .ok _ s => pure ("ok" ++ logOut s.log, s.o)
+    | .err e s => pure (errOut e ++ logOut s.log, s.o)
+  match fields with
+  | ["put", k, v] => putStep k v ""
+  | ["put", k, v, sc] => putStep k v sc
   | ["del", k] => do
     let k ← key? k
     match S.del k false o with
     | .ok b o' => pure (if b then "T" else "F", o')
     | .err e o' => pure (errOut e, o')
-  | ["def", k, v, w, e, c] => do
-    let k ← key? k
-    let v ← if v = "-" then some none else (val? v).map some
-    let w ← tri? w; let e ← tri? e; let c ← tri? c
-    match S.define k ⟨v, w, e, c⟩ true o with
-    | .ok _ o' => pure ("ok", o')
-    | .err e o' => pure (errOut e, o')
+  | ["def", k, v, w, e, c] => defStep k v w e c ""
+  | ["def", k, v, w, e, c, sc] => defStep k v w e c sc
   | ["frz"] =>
     match S.freeze false o with
     | .ok _ o' => pure ("ok", o')
@@ -295,23 +304,24 @@ def step (S : Side) (o : Obj) (t : String) : Option (String × Obj) :=
   | ["call", m, args, rets] => do
     let rets ← vals? rets
     let f ← S.method o.proto m args
-    match f { o := o, rets := rets } with
+    match f { o := o, rets := rets, thisRaw := tr } with
     | .ok r s => pure (retOut r ++ logOut s.log, s.o)
     | .err e s => pure (errOut e ++ logOut s.log, s.o)
   | ["call", m, args, rets, script] => do
     let rets ← vals? rets
     let script ← script? script
     let f ← S.method o.proto m args
-    match f { o := o, rets := rets, script := script } with
+    match f { o := o, rets := rets, script := script, thisRaw := tr } with
     | .ok r s => pure (retOut r ++ logOut s.log, s.o)
     | .err e s => pure (errOut e ++ logOut s.log, s.o)
   | _ => none
 
-def runSteps (S : Side) : Obj → List String → List String → Option (List String × Obj)
+def runSteps (S : Side) (tr : Val) (o0 : Obj) : Obj → List String → List String → Option (List String × Obj)
   | o, [], acc => some (acc.reverse, o)
   | o, t :: ts, acc => do
-    let (r, o') ← step S o t
-    runSteps S o' ts (r :: acc)
+    let (r, o') ← step S tr o t
+    -- a primitive receiver is wrapped anew (ToObject) by every call: nothing carries over
+    runSteps S tr o0 (if tr = .recv then o' else o0) ts (r :: acc)
 
 def initObj (es : List (Option Val)) (ps : List (Nat × Val)) : Obj :=
   let props : List (Key × PropD) := (Key.length, ⟨.int es.length, true, false, false⟩) ::
@@ -325,10 +335,22 @@ def initLike (len : Option Val) (es : List (Option Val)) : Obj :=
     ((List.range es.length).zip es).filterMap fun (i, e) => e.map fun v => (Key.idx i, ⟨v, true, true, true⟩)
   { isArr := false, ext := true, props := props, proto := [] }
 
-def runHist (S : Side) (o : Obj) (steps : List String) : String :=
-  match runSteps S o steps [] with
-  | some (rs, o') => "|".intercalate (rs ++ [dump o'])
+/-- `tr` = the `this` value of the calls: the receiver object, or the primitive it is made from by ToObject (then the
+    wrapper is not observable after the call and no final dump is printed) -/
+def runHist (S : Side) (tr : Val) (o : Obj) (steps : List String) : String :=
+  match runSteps S tr o o steps [] with
+  | some (rs, o') => "|".intercalate (rs ++ [if tr = .recv then dump o' else "P"])
   | none => "bad-step"
+
+/-- ToObject(primitive): a String object has the non-writable, non-configurable `length` and one read-only
+    enumerable property per UTF-16 code unit (ASCII strings only are generated); Number and Boolean objects have none -/
+def initPrim (v : Val) : Obj :=
+  match v with
+  | .str b =>
+    let props : List (Key × PropD) := (Key.length, ⟨.int b.length, false, false, false⟩) ::
+      ((List.range b.length).zip b).map fun (i, c) => (Key.idx i, ⟨.str [c], false, true, false⟩)
+    { isArr := false, ext := true, props := props, proto := [] }
+  | _ => { isArr := false, ext := true, props := [], proto := [] }
 
 /-! ### deviation regions: decidable predicates on the request -/
 
@@ -339,14 +361,21 @@ def isObj : Val → Bool
   | .obj _ => true
   | _ => false
 
-def stepDev (o : Obj) (t : String) : List String :=
+def stepDev (tr : Val) (o : Obj) (t : String) : List String :=
+  let lenValueRegion (k v : String) : List String :=
+    -- §15.4.5.1 3.c–d convert an object-valued Desc.[[Value]] twice, arrayUint32 once
+    match key? k, val? v with
+    | some .length, some (.obj _) =>
+      if o.isArr ∧ ((canPutDetails o .length).1 ∨ (t.splitOn "/").head? = some "def") then ["length_value_converted_once"] else []
+    | _, _ => []
   match t.splitOn "/" with
+  | "put" :: k :: v :: _ => lenValueRegion k v
+  | "def" :: k :: v :: _ => lenValueRegion k v
   | "call" :: m :: argTok :: _ :: rest =>
     let O := modelOps env
     let script : List Conv := match rest with | [sc] => (script? sc).getD [] | _ => []
-    let s : St := { o := o, script := script }
-    let lenObj : Bool := isObj (objGet o .length)
-    let (name, callable) := splitBang m
+    let s : St := { o := o, script := script, thisRaw := tr }
+    let (name, _) := splitBang m
     match vals? argTok with
     | some args =>
       (if name = "splice" then
@@ -360,14 +389,19 @@ def stepDev (o : Obj) (t : String) : List String :=
           | .err _ _ => []
         | .err _ _ => []
        else [])
+      -- Array.prototype.toString hands its arguments on to join (§15.4.4.2: an empty argument list)
+      ++ (if name = "toString" ∧ argAt args 0 ≠ .undef then ["toString_forwards_arguments"] else [])
+      -- reverse and sort return call.This, which is the primitive for a primitive receiver (§15.4.4.8/11: O)
+      ++ (if (name = "reverse" ∨ name = "sort" ∨ name = "sortNum" ∨ name = "sortInf") ∧ tr ≠ .recv
+          then ["reverse_sort_return_primitive_this"] else [])
     | none => []
   | _ => []
 
-def histDev (o : Obj) (steps : List String) : List String :=
+def histDev (tr : Val) (o : Obj) (steps : List String) : List String :=
   (steps.foldl (fun (acc : List String × Obj) t =>
-    let ds := (stepDev acc.2 t).foldl addDev acc.1
-    match step modelSide acc.2 t with
-    | some (_, o') => (ds, o')
+    let ds := (stepDev tr acc.2 t).foldl addDev acc.1
+    match step modelSide tr acc.2 t with
+    | some (_, o') => (ds, if tr = .recv then o' else o)
     | none => (ds, acc.2)) ([], o)).1
 
 def devOut (ds : List String) : String := if ds.isEmpty then "-" else ",".intercalate ds
@@ -404,15 +438,24 @@ def handle (ws : List String) : String :=
     match (stripPrefix "a=" a).bind elems?, (stripPrefix "p=" p).bind protos? with
     | some es, some ps =>
       let o := initObj es ps
-      reply (runHist modelSide o steps) (runHist specSide o steps) (devOut (histDev o steps))
+      reply (runHist modelSide .recv o steps) (runHist specSide .recv o steps) (devOut (histDev .recv o steps))
     | _, _ =>
       -- `o=<length|->|<elems>`: an array-like receiver
+      if a = "A=" then
+        -- Array.prototype itself: an Array of length 0 (§15.4.4)
+        let o := initObj [] []
+        reply (runHist modelSide .recv o steps) (runHist specSide .recv o steps) (devOut (histDev .recv o steps))
+      else match (stripPrefix "v=" a).bind val? with
+      | some pv =>
+        let o := initPrim pv
+        reply (runHist modelSide pv o steps) (runHist specSide pv o steps) (devOut (histDev pv o steps))
+      | none =>
       match (stripPrefix "o=" a).map (·.splitOn "|") with
       | some [l, e] =>
         match (if l = "-" then some none else (val? l).map some), elems? e with
         | some len, some es =>
           let o := initLike len es
-          reply (runHist modelSide o steps) (runHist specSide o steps) (devOut (histDev o steps))
+          reply (runHist modelSide .recv o steps) (runHist specSide .recv o steps) (devOut (histDev .recv o steps))
         | _, _ => "bad-op"
       | _ => "bad-op"
   | _ => "bad-op"
